@@ -87,13 +87,13 @@ def pregen(check):
 
 CFG = {
     "id": "C01",
-    "lean_modules": ["GeomV.C01.Proofs", "GeomV.C01.ProofsCert", "GeomV.C01.ProofsPrep", TIE_MODULE],
+    "lean_modules": ["GeomV.C01.Proofs", "GeomV.C01.ProofsCert", "GeomV.C01.ProofsPrep", "GeomV.C01.ProofsArea", TIE_MODULE],
     "exe": "geomv_c01",
     "go_cmd": "c01",
     "stages": ["go:gen", "lean:prep", "go:impl", "lean:judge"],
     "theorems": [T + n for n in ["C01_pointset", "C01_closed", "C01_empty_only_if_null", "C01_xor_defect_before_fix", "C01_pointset_natural", "C01_inclusion_exclusion_pointwise", "member_eq_memberNat",
                                  "construct_pointset", "boundsIntersection_pointset", "not_both_inside", "insideRing_rect", "inBox_of_inside", "inside_const", "edge_lemma", "member_const", "sample_cell_const", "slab_cell_free", "slabCell_sound",
-                                 "C01_certificate_sound", "C01_certificate_exact", "C01_certificate_coreSpec_case", "C01_inclusion_exclusion_cells", "slab_sound", "nearSeg_convex", "chain_pairwise", "split_at", "C01_library_within_judged", "withinCheck_none", "clearOf_mono", "C01_cells_asked", "C01_every_cell_asked", "prep_slab"] + TIE_THEOREMS],
+                                 "C01_certificate_sound", "C01_certificate_exact", "C01_certificate_coreSpec_case", "C01_inclusion_exclusion_cells", "slab_sound", "nearSeg_convex", "chain_pairwise", "split_at", "C01_library_within_judged", "withinCheck_none", "clearOf_mono", "C01_cells_asked", "C01_every_cell_asked", "prep_slab", "C01_area_certificate", "green_weighted", "cellSum_alt", "edge_total", "goShoelace_eq"] + TIE_THEOREMS],
     "level": "proof",
     "trusted_base": [
         "Lean 4.33.0 kernel; axioms of every theorem printed by #print axioms must be within {propext, Classical.choice, Quot.sound}",
